@@ -87,6 +87,8 @@ func c15Place(path, kind, content string) {
 		os.WriteFile(path, []byte(""), 0o644)
 	case "emptylist":
 		os.WriteFile(path, []byte("[]\n"), 0o644)
+	case "dup": // the user's own entry for a command line the main database also has, and one listed twice
+		os.WriteFile(path, []byte("- command: \"git status\"\n  description: \"my wording\"\n  keywords: [\"mine\"]\n  pipeline: false\n- command: \"my cmd\"\n  description: \"Mine\"\n  keywords: []\n  pipeline: false\n- command: \"my cmd\"\n  description: \"Mine again\"\n  keywords: []\n  pipeline: false\n"), 0o644)
 	case "blank":
 		os.WriteFile(path, []byte("  \n\n"), 0o644)
 	case "comment":
@@ -99,7 +101,7 @@ func c15Place(path, kind, content string) {
 func c15Gen(r *rand.Rand, id int) c15Case {
 	c := c15Case{ID: id}
 	c.Main = []string{"good", "good", "missing", "dir", "unreadable", "malformed", "empty"}[r.Intn(7)]
-	c.Personal = []string{"absent", "absent", "good", "malformed", "dir", "unreadable", "empty", "blank", "comment", "emptylist"}[r.Intn(10)]
+	c.Personal = []string{"absent", "absent", "good", "malformed", "dir", "unreadable", "empty", "blank", "comment", "emptylist", "dup"}[r.Intn(11)]
 	c.Backup = []string{"absent", "absent", "good", "empty", "emptylist", "stale", "malformed", "dir"}[r.Intn(8)]
 	c.Cfg = c15Cfg{MaxAttempts: []int{-1, 0, 1, 2, 3, 3, 4}[r.Intn(7)], BaseNS: []int64{0, 1000000, 2000000}[r.Intn(3)],
 		MaxNS: []int64{1000000, 3000000, 5000000000, 0}[r.Intn(4)]}
@@ -166,6 +168,9 @@ func c15Run(c *c15Case, dir string) {
 	}
 	if c.Personal == "good" {
 		c.PersN = 1
+	}
+	if c.Personal == "dup" {
+		c.PersN = 3
 	}
 	cfg, _ := json.Marshal(c.Cfg)
 	self, _ := os.Executable()
